@@ -72,6 +72,7 @@ class CliCreate(Instance):
         self.files, self.threads, self.preempt, self.k = files, threads, preempt, k
         self.required_witnesses = ("created", "extracted")
         self.n_concrete = 0
+        self.native_timeout = 1200
         self.bounds = {"inputs": f"{len(files)} FASTA file(s) {[f for f, _ in files]} with {[len(r) for _, r in files]} records (concrete), k={k}, segment size 4, {threads} worker thread(s)",
                        "schedules": f"every interleaving within preemption bound {preempt}"}
 
